@@ -130,12 +130,7 @@ def run_one(ck, prog):
     # ---- C17.2 capacity and index formulae --------------------------------------------------------------------------------
     check_slot_capacity(ck, prog, "C17.2")
     c = prog.ctx(fns["get_next_cqe"])
-    idx_ok = False
-    for bb, t in c.cfg.calls(lambda t: (t.get("callee") or "").endswith("::add")):
-        a = c.args(bb)
-        if mentions(a[0], c.prov, lambda z: z[0] == "field" and z[2] == "entries"):
-            idx_ok = shape_masked_shift(strip_casts(a[1]), c.prov, None, loader="acquire_khead")
-    ck.ob("C17.2", "cqe-index=(head&mask)<<shift", idx_ok, fn=c.path, detail="the completion index must be (kernel_head & ring_mask) << shift")
+    check_cqe_index(ck, prog, "C17.2")
     for helper in ("sync_ktail_release", "sync_ktail_relaxed"):
         hf = prog.fns.get(Q + "UringSubmissionQueue::" + helper)
         if ck.anchor("C17.2", helper, hf):
@@ -300,3 +295,17 @@ def check_slot_capacity(ck, prog, rule):
                 e = strip_casts(a[1])
                 idx_ok = shape_masked_shift(e, g.prov, "tail")
         ck.ob(rule, "sqe-index=(tail&mask)<<shift", idx_ok, fn=g.path, detail="the slot index must be (tail & ring_mask) << shift")
+
+
+def check_cqe_index(ck, prog, rule):
+    """the completion entry read is entries + ((kernel_head & ring_mask) << shift) (shared by C17.2 and C18.6)"""
+    f = prog.fns.get(URING + "get_next_cqe")
+    if not ck.anchor(rule, "get_next_cqe", f):
+        return
+    c = prog.ctx(f)
+    idx_ok = False
+    for bb, t in c.cfg.calls(lambda t: (t.get("callee") or "").endswith("::add")):
+        a = c.args(bb)
+        if mentions(a[0], c.prov, lambda z: z[0] == "field" and z[2] == "entries"):
+            idx_ok = shape_masked_shift(strip_casts(a[1]), c.prov, None, loader="acquire_khead")
+    ck.ob(rule, "cqe-index=(head&mask)<<shift", idx_ok, fn=c.path, detail="the completion index must be (kernel_head & ring_mask) << shift: masking after the shift reads already-consumed slots on rings with 32-byte completions")
